@@ -12,6 +12,7 @@ node    : ["text", s] ["out", e] ["assign", n, e] ["capture", n, body] ["if", e,
           ["include", name, None | [e, alias|None], [[n, e]…]]
           ["render", name, None | [loop, e, alias|None], [[n, e]…]]
           ["macro", name, [[p, e|None]…], body] ["call", name, [e…], [[n, e]…]]
+          ["block", name, body] ["extends", name] ["tablerow", var, e, body]
 """
 from __future__ import annotations
 
@@ -79,6 +80,12 @@ def enc_node(n):
         return ["macro", n[1], [[p, None if e is None else enc_expr(e)] for p, e in n[2]], enc_nodes(n[3])]
     if t == "call":
         return ["call", n[1], [enc_expr(e) for e in n[2]], enc_kw(n[3])]
+    if t == "block":
+        return ["block", n[1], enc_nodes(n[2])]
+    if t == "extends":
+        return ["extends", n[1]]
+    if t == "tablerow":
+        return ["tablerow", n[1], enc_expr(n[2]), enc_nodes(n[3])]
     raise ValueError(n)
 
 
@@ -199,6 +206,12 @@ def node_src(n):
     if t == "call":
         a = [expr_src(e) for e in n[2]] + [f"{k}: {expr_src(e)}" for k, e in n[3]]
         return "{% call " + n[1] + (" " + ", ".join(a) if a else "") + " %}"
+    if t == "block":
+        return "{% block " + n[1] + " %}" + to_source(n[2]) + "{% endblock %}"
+    if t == "extends":
+        return "{% extends '" + n[1] + "' %}"
+    if t == "tablerow":
+        return "{% tablerow " + n[1] + " in " + expr_src(n[2]) + " %}" + to_source(n[3]) + "{% endtablerow %}"
     raise ValueError(n)
 
 
